@@ -6898,7 +6898,7 @@ class Rect(Shape):
         """
         scale_x = self.transform.value_scale_x()
         scale_y = self.transform.value_scale_y()
-        if scale_x * scale_y < 0:
+        if scale_x < 0 or scale_y < 0:
             return self  # No reification of negative values, gives negative dims.
         translate_x = self.transform.value_trans_x()
         translate_y = self.transform.value_trans_y()
@@ -7117,8 +7117,8 @@ class _RoundShape(Shape):
         """
         scale_x = self.transform.value_scale_x()
         scale_y = self.transform.value_scale_y()
-        if scale_y * scale_x < 0:
-            return self  # No reification of flipped values.
+        if scale_x < 0 or scale_y < 0:
+            return self  # No reification of flipped values (negative radii).
         translate_x = self.transform.value_trans_x()
         translate_y = self.transform.value_trans_y()
         if (
